@@ -324,7 +324,8 @@ def c03_4(I, shape):
                      "setting as symbolic integers (64..2^14+1); calc_key "
                      "and the cipher state change are stubs"],
             patches=lambda s: (hello_proxies(), hello_stubs() + [
-                (tc, "calc_key", lambda *a, **k: bytearray(12))]))
+                (tc, "calc_key", lambda *a, **k: bytearray(12))]),
+            also=("C01",))
 def c03_5(I, shape):
     """after the handshake each side sends at most what the PEER advertised
     and accepts what IT advertised itself (RFC 8449): the two limits are
